@@ -571,14 +571,15 @@ func (s *BaseNodeService) reinitDKG(message storage.Message) error {
 	operations := make([]*types.Operation, 0)
 	for _, msg := range req.Messages {
 		// the reinit message describes one round: embedded messages of any
-		// other round must not be applied (they are processed unverified) -
-		// nor may another round's signing batch end this round's replay
+		// other round must not be applied (they are processed unverified)
 		if msg.DkgRoundID != req.DKGID {
 			continue
 		}
 
-		if fsm.Event(msg.Event) == sif.EventSigningStart {
-			break
+		// the signing of batches is not replayed - message by message: a signing proposal that
+		// every node refused while the key generation was under way must not end the replay
+		if types.IsSigningEvent(fsm.Event(msg.Event)) {
+			continue
 		}
 
 		// LDC-07 Messages May Be Sent to a Single Node
